@@ -32,7 +32,7 @@ def node_family(rng, n, family=None):
     elif family == "frozenset":
         ids = [frozenset((i, i + 100)) for i in range(n)]
     elif family == "mixed":
-        pool = [0, "0", (0,), frozenset((0,)), -1, "b_1", 2.5, 7]
+        pool = [0, "0", (0,), frozenset((0,)), "", "b_1", 2.5, -1]
         ids = pool[:n]
     elif family == "eqkeys":
         # 1 == 1.0 == True hash alike: the library must treat them as ONE node
@@ -52,7 +52,14 @@ def alias(rng, family, n):
 
 
 def time_family(rng, family=None):
-    family = family or rng.choice(("small", "small", "small", "neg", "big"))
+    family = family or rng.choice(("small", "small", "small", "neg", "big", "small", "neg", "big", "numpy", "huge"))
+    if family == "huge":
+        # beyond 2**53 (nanosecond epochs): neighbouring instants are not distinguishable as floats
+        return family, 2 ** 60 + rng.randint(0, 1000), rng.choice((6, 12))
+    if family == "numpy":
+        # integer timestamps that are not python ints (values taken from arrays / data frames)
+        import numpy as np
+        return family, np.int64(rng.choice((0, -5))), rng.choice((6, 12))
     if family == "small":
         return family, 0, rng.choice((6, 9, 14))
     if family == "neg":
@@ -132,14 +139,26 @@ def classify(latest, t, e):
 
 # ------------------------------------------------------------------ random histories
 def random_program(rng, model_factory, n_ops=None, directed=False, family=None, tfamily=None,
-                   bulk=True, with_nodes=True, p_reject=0.07, p_none=0.02, max_nodes=5):
+                   bulk=True, with_nodes=True, p_reject=0.07, p_none=0.02, max_nodes=5, p_big=0.06,
+                   clears=False):
     """Random history biased towards every relative-position class.  A throw-away model (built
     by model_factory) is advanced alongside so that spans can be placed relative to the state."""
     m = model_factory()
-    n_nodes = rng.randint(2, max_nodes)
-    fam, ids = node_family(rng, n_nodes, family)
-    tfam, t0, tw = time_family(rng, tfamily)
-    n_ops = n_ops or rng.randint(1, 14)
+    big = n_ops is None and rng.random() < p_big
+    if big:
+        # a minority of larger cases: more nodes, longer histories, wider time range (size-dependent defects)
+        n_nodes = rng.randint(8, 14)
+        family = family if family in ("int", "negint", "str", "str_", "tuple", "frozenset") else \
+            rng.choice(("int", "negint", "str", "tuple"))
+        fam, ids = node_family(rng, n_nodes, family)
+        tfam, t0, tw = time_family(rng, tfamily)
+        tw = tw * 4
+        n_ops = rng.randint(25, 70)
+    else:
+        n_nodes = rng.randint(2, max_nodes)
+        fam, ids = node_family(rng, n_nodes, family)
+        tfam, t0, tw = time_family(rng, tfamily)
+        n_ops = n_ops or rng.randint(1, 14)
     prog = []
     if with_nodes and rng.random() < 0.3:
         prog.append(("node", "iso", {"label": [1, {"x": 2}], "w": 3}))
@@ -148,9 +167,16 @@ def random_program(rng, model_factory, n_ops=None, directed=False, family=None, 
     pairs = []
     for _ in range(n_ops):
         r = rng.random()
+        if clears and rng.random() < 0.025 and prog:
+            op = (rng.choice(("clear", "clear_edges")),)
+            prog.append(op)
+            _advance(m, op)
+            if op[0] == "clear":
+                pairs = []
+            continue
         if bulk and r < 0.12:
             # bulk helper at one instant
-            k = rng.randint(2, min(4, len(ids)))
+            k = rng.randint(2, min(4 if not big else 9, len(ids)))
             ns = rng.sample(ids, k)
             if rng.random() < 0.2:
                 ns.append(ns[0])
@@ -159,6 +185,10 @@ def random_program(rng, model_factory, n_ops=None, directed=False, family=None, 
             if kind == "addfrom":
                 e = None if rng.random() < 0.5 else t + rng.randint(1, 3)
                 eb = [(ns[i], ns[i + 1]) for i in range(len(ns) - 1)]
+                if rng.random() < 0.35:
+                    # the documented 3-tuple form (u, v, d); d is interaction data and never a source of time
+                    d = rng.choice(({}, {"w": 1}, {"t": [[0, 1]]}))
+                    eb = [(a, b, dict(d)) for a, b in eb]
                 op = ("addfrom", eb, t, e)
             elif kind.startswith("dn."):
                 e = None if rng.random() < 0.6 else t + rng.randint(1, 3)
@@ -203,7 +233,7 @@ def random_program(rng, model_factory, n_ops=None, directed=False, family=None, 
         if (u, v) not in pairs:
             pairs.append((u, v))
         _advance(m, op)
-    return prog, dict(nodes=fam, times=tfam)
+    return prog, dict(nodes=fam, times=tfam, big=big)
 
 
 def elements(op):
@@ -212,7 +242,7 @@ def elements(op):
     if kind == "add":
         return [(op[1], op[2], op[3], op[4])]
     if kind == "addfrom":
-        return [(u, v, op[2], op[3]) for u, v in op[1]]
+        return [(x[0], x[1], op[2], op[3]) for x in op[1]]
     if kind in ("path", "star", "cycle", "dn.path", "dn.star", "dn.cycle"):
         ns = list(op[1])
         t = op[2]
@@ -225,7 +255,7 @@ def elements(op):
         else:
             eb = list(zip(ns, ns[1:] + [ns[0]]))
         return [(u, v, t, e) for u, v in eb]
-    if kind == "node":
+    if kind in ("node", "clear", "clear_edges"):
         return []
     raise ValueError(op)
 
@@ -234,6 +264,9 @@ def _advance(m, op):
     """advance a model over an op exactly as a correct library would"""
     if op[0] == "node":
         m.add_node(op[1], **op[2])
+        return None
+    if op[0] in ("clear", "clear_edges"):
+        m.clear(edges_only=op[0] == "clear_edges")
         return None
     els = elements(op)
     if op[0] != "add" and els and els[0][2] is None:
@@ -286,3 +319,31 @@ def enumerate_histories(alphabet, max_len, shard=0, nshards=1):
             for x in rec(prefix + [alphabet[i]], depth + 1):
                 yield x
     return rec([], 0)
+
+
+def long_timeline_program(rng, directed, ids=None):
+    """few pairs, one of them with 9-16 separate runs (points and intervals): timelines long enough to reach
+    any code path that treats long lists differently (search, caching, blocking)"""
+    ids = ids or [0, 1, 2, 3]
+    prog = []
+    pairs = [(ids[0], ids[1]), (ids[1], ids[2])] + ([(ids[1], ids[0])] if directed else []) + [(ids[2], ids[3])]
+    for pi, (u, v) in enumerate(pairs):
+        t = rng.randint(-3, 2)
+        nruns = rng.randint(9, 16) if pi == 0 or rng.random() < 0.3 else rng.randint(1, 4)
+        for _ in range(nruns):
+            ln = rng.choice((1, 1, 2, 3, 4))
+            a, b = (u, v) if directed or rng.random() < 0.7 else (v, u)
+            prog.append(("add", a, b, t, None if ln == 1 and rng.random() < 0.6 else t + ln))
+            t += ln + rng.randint(1, 3)
+    # interleave the pairs while keeping each pair's order
+    queues = {}
+    for op in prog:
+        queues.setdefault(frozenset((op[1], op[2])) if not directed else (op[1], op[2]), []).append(op)
+    out = []
+    keys = list(queues)
+    while keys:
+        k = rng.choice(keys)
+        out.append(queues[k].pop(0))
+        if not queues[k]:
+            keys.remove(k)
+    return out
